@@ -23,19 +23,27 @@ def why_of(p):
         return "drop-to"
     if getattr(p, "wasCloseHandshakeTimeout", False):
         return "close-to"
-    return why_class(p.wasNotCleanReason)
+    cls = why_class(p.wasNotCleanReason)
+    if cls.startswith("other:"):
+        # wording not recognised (it is nobody's business): the flags say who dropped the connection
+        if getattr(p, "failedByMe", False) and getattr(p, "droppedByMe", False):
+            return "i-dropped"
+        if not getattr(p, "droppedByMe", False) and not p.wasClean:
+            return "peer-dropped"
+    return cls
 
 
 def why_class(s):
     if s is None:
         return "none"
+    low = s.lower()
     if "opening handshake timeout" in s:
         return "open-to"
     if "server did not drop" in s:
         return "drop-to"
     if "closing handshake timeout" in s:
         return "close-to"
-    if "ping timeout" in s:
+    if "ping" in low and ("timeout" in low or "timed out" in low):
         return "ping-to"
     if s.startswith("I dropped"):
         return "i-dropped"
